@@ -287,7 +287,12 @@ class FakeSocket:
         head = ("HTTP/1.1 %s\r\nContent-Type: text/plain; charset=utf-8\r\n"
                 "Content-Length: %d\r\nConnection: close\r\n\r\n"
                 % (status, len(body) + extra)).encode("latin-1")
-        return io.BytesIO(head + body)
+        f = io.BytesIO(head + body)
+        # the "connection": what http.client reads the response from.  It is
+        # closed when the response object (or the HTTPError built around it)
+        # is closed
+        w.sockfiles.append((url, f))
+        return f
 
     def close(self):
         pass
@@ -477,6 +482,8 @@ class SimWorld:
         self.streams = []
         self.opened = []
         self.raised = []         # exception objects raised by simdt callbacks
+        self.sockfiles = []      # [(url, file object of the fake socket)]
+        self.sock_open_at_raise = None
         self.res_events = {}     # id(resource) -> seq of resource-create
 
     def begin_op(self, name, faults=()):
@@ -517,6 +524,19 @@ class SimWorld:
             if getattr(r, "closed", None) is not True:
                 out.append((i, url))
         return out
+
+    def note_raise(self):
+        """Called while an exception that ended the operation is still alive:
+        which simulated connections are open at that moment."""
+        self.sock_open_at_raise = [u for u, f in self.sockfiles
+                                   if not f.closed]
+
+    def unclosed_connections(self):
+        """Simulated http connections still open when the call ended (when it
+        raised: at the moment the exception reached the caller)."""
+        if self.sock_open_at_raise is not None:
+            return list(self.sock_open_at_raise)
+        return [u for u, f in self.sockfiles if not f.closed]
 
     def unclosed_streams(self):
         return [(s._ordinal, s._url) for s in self.streams
